@@ -28,6 +28,8 @@ pub trait Config: 'static {
     type E: Elem + SatisfyTraits<Self::Tr>;
     const NAME: &'static str;
     fn mem_builder() -> Self::M;
+    /// a vector with the same constraints and backend but ANOTHER element type (same size and alignment as the 8-byte element)
+    fn new_xvec() -> AnyVec<Self::Tr, Self::M>;
     /// [fixed, fcap (elements; BIG = unbounded), backend name]
     fn backend() -> (bool, i64, &'static str);
     const CLONEABLE: bool = false;
@@ -631,6 +633,27 @@ impl<C: Config> World<C> {
                     "Z16" => self.wrong::<crate::elem::Z16a8d>(a, out),
                     t => panic!("driver: bad wrong type {}", t),
                 }
+            }
+            "cross_wrong" => {
+                // a removal handle of a vector with another element type offered to push / insert: must be rejected; the handle is
+                // dropped by the unwinding, which completes the removal on ITS vector
+                let mut xv: V<C> = C::new_xvec();
+                let xid = reg::fresh_id();
+                out.born.push(xid);
+                xv.push(AnyValueWrapper::new(crate::elem::X8a8d::make(xid, 0)));
+                let ins = st(a, "how") == "insert";
+                let r = if st(a, "dir") == "into_v" {
+                    let v = self.v(x);
+                    catch_unwind(AssertUnwindSafe(|| { let h = xv.pop().unwrap(); if ins { v.insert(0, h) } else { v.push(h) } }))
+                } else {
+                    let v = self.v(x);
+                    catch_unwind(AssertUnwindSafe(|| { let h = v.pop().unwrap(); if ins { xv.insert(0, h) } else { xv.push(h) } }))
+                };
+                let xlen = xv.len();
+                drop(xv);
+                out.ret.push((xlen as i64, 0));
+                if let Err(p) = r { std::panic::resume_unwind(p); }
+                out.note.push("wrong_type_admitted".to_string());
             }
             "downcast_q" => {
                 let some = match st(a, "ty") {
